@@ -49,6 +49,33 @@ impl H263State {
         }
     }
 
+    /// Verification hook: the complete private state of the decoder, in canonical order.
+    #[cfg(feature = "verif")]
+    pub fn verif_state(&self) -> (u8, Option<u16>, Option<u16>, u32, Vec<u16>) {
+        let Self {
+            decoder_options,
+            last_picture,
+            reference_picture,
+            running_options,
+            reference_states,
+        } = self;
+        let mut keys: Vec<u16> = reference_states.keys().copied().collect();
+        keys.sort_unstable();
+        (
+            decoder_options.bits(),
+            *last_picture,
+            *reference_picture,
+            running_options.bits(),
+            keys,
+        )
+    }
+
+    /// Verification hook: a stored picture by key.
+    #[cfg(feature = "verif")]
+    pub fn verif_stored(&self, key: u16) -> Option<&DecodedPicture> {
+        self.reference_states.get(&key)
+    }
+
     /// Determine if this decoder is in "Sorenson" H.263 mode.
     pub fn is_sorenson(&self) -> bool {
         self.decoder_options
